@@ -49,6 +49,21 @@ def gen_cases(rng, tier):
       t = {"eam": "setfl", "fs": "setfl_fs", "adp": "eam_adp"}[kind]
       m = spec.gen_eam_model(rng, kind, "potable", target=t, depth=rng.choice([1, 2]), grids={"nr": rng.choice([4, 6]), "nrho": rng.choice([3, 5])},
                              nspecies=rng.choice([1, 2, 3]), underspecified=0)
+    if i % 4 == 1:
+      # definitions that become the same string once the blanks BETWEEN tokens are removed ('1 25' vs '12 5'):
+      # token boundaries carry meaning even though surrounding whitespace does not
+      a, b, c = rng.randint(1, 9), rng.randint(1, 9), rng.randint(1, 9)
+      name = rng.choice(["polynomial", "polynomial", "buck_like"])
+      if name == "polynomial":
+        n1 = {"k": "form", "name": "polynomial", "p": [a, 10 * b + c]}
+        n2 = {"k": "form", "name": "polynomial", "p": [10 * a + b, c]}
+      else:
+        n1 = {"k": "form", "name": "morse", "p": [a, 10 * b + c, 2]}
+        n2 = {"k": "form", "name": "morse", "p": [10 * a + b, c, 2]}
+      for key in ("density", "pair", "embed"):
+        ents = m.get(key) or []
+        if len(ents) >= 2:
+          ents[0][-1], ents[1][-1] = n1, n2
     cases.append({"model": m, "styles": [rng.randrange(1 << 30) for _ in range(3)], "rseed": rng.randrange(1 << 30)})
   return cases
 
